@@ -141,7 +141,10 @@ class Duration_new:
 
         def args(F):
             a = {n: 0 for n in _NUM}
-            a["seconds"] = F.real("seconds")
+            # internal callers pass seconds=<float>; the duration parser passes fractional days, hours or minutes
+            for n in ("days", "hours", "minutes", "seconds"):
+                a[n] = F.real(n)
+            a["weeks"] = F.int("weeks")
             a["microseconds"] = F.int("microseconds")
             a["years"] = F.int("years")
             a["months"] = F.int("months")
